@@ -1,6 +1,7 @@
 package rules
 
 import (
+	"go/token"
 	"go/types"
 	"strings"
 
@@ -394,5 +395,83 @@ func (c *Ctx) ruleDecoderExclusive(rule string) {
 	}
 	if n == 0 {
 		c.R.Unresolved(rule, "Decode calls of the ATP client")
+	}
+}
+
+// R-WORKDONE (C08 "never reports success for a run whose work-done message did not arrive intact"): CBOR decoding does
+// not fail when a map is shorter than the struct (the missing fields stay zero) or when a field is null. Every step
+// output has an ID, so a decoded work-done message whose output ID is empty is incomplete or garbled. Obligation:
+// wherever an ExecutionResult without error is built in a function that holds a decoded WorkDoneMessage, the
+// message's output ID was found non-empty on every path.
+func (c *Ctx) ruleWorkDone(rule string) {
+	isMsg := func(t types.Type) bool {
+		if p, ok := t.Underlying().(*types.Pointer); ok {
+			t = p.Elem()
+		}
+		n, ok := t.(*types.Named)
+		return ok && n.Obj().Name() == "WorkDoneMessage"
+	}
+	n := 0
+	for _, fn := range c.M.SortedFuncs(c.scopePkg("atp")) {
+		has := false
+		for _, p := range fn.Params {
+			if isMsg(p.Type()) {
+				has = true
+			}
+		}
+		if !has {
+			continue
+		}
+		cnt := 0
+		for _, b := range fn.Blocks {
+			for _, in := range b.Instrs {
+				st, ok := in.(*ssa.Store)
+				if !ok || !core.IsNilConst(st.Val) {
+					continue
+				}
+				fa, ok := st.Addr.(*ssa.FieldAddr)
+				if !ok || fieldName(fa.X.Type(), fa.Field) != "Error" {
+					continue
+				}
+				if sn := structOf(fa.X.Type()); sn == nil || sn.Obj().Name() != "ExecutionResult" {
+					continue
+				}
+				n++
+				cnt++
+				k := key(rule, c.M.Key(fn), sprintf("success result #%d only for a message with an output ID", cnt))
+				est := func(cond core.Cond) bool {
+					bo, ok := cond.V.(*ssa.BinOp)
+					if !ok || (bo.Op != token.EQL && bo.Op != token.NEQ) {
+						return false
+					}
+					var other ssa.Value
+					if s, isC := core.ConstString(bo.Y); isC && s == "" {
+						other = bo.X
+					} else if s, isC := core.ConstString(bo.X); isC && s == "" {
+						other = bo.Y
+					} else {
+						return false
+					}
+					ld, ok := other.(*ssa.UnOp)
+					if !ok {
+						return false
+					}
+					ofa, ok := ld.X.(*ssa.FieldAddr)
+					if !ok || !isMsg(ofa.X.Type()) || fieldName(ofa.X.Type(), ofa.Field) != "OutputID" {
+						return false
+					}
+					return (bo.Op == token.NEQ) == cond.True
+				}
+				if core.MustHold(fn, est)[b] {
+					c.R.Ok(rule, k, c.M.InstrPos(st), "success result built from a work-done message", "on every path the message's output ID was found non-empty")
+				} else {
+					c.R.Bad(rule, k, c.M.InstrPos(st), "a work-done message is turned into a success result whatever it contains",
+						"a message whose map header was shortened, or whose payload is null, decodes without error into zero values: Execute reports success with an empty output ID and no data for a run whose result never arrived intact")
+				}
+			}
+		}
+	}
+	if n == 0 {
+		c.R.Unresolved(rule, "construction of a success result from a work-done message")
 	}
 }
